@@ -165,4 +165,37 @@ example : run (some (.exactly 0)) ([] : List Nat) = ([], .ok) ∧ run (some (.at
 example : mkRange 0 0 = .ok (.range 0 0) ∧ mkRange 2 1 = .error .inconsistent := by
   constructor <;> rfl
 
+/-! ### The count never depends on what the solutions are -/
+
+theorem loop_map {α β} (f : α → β) (c : Option Constraint) (n : Nat) (sols : List α) :
+    loop c n (sols.map f) = ((loop c n sols).1.map f, (loop c n sols).2) := by
+  induction sols generalizing n with
+  | nil => simp only [List.map_nil, loop]; split <;> simp
+  | cons x xs ih =>
+    simp only [List.map_cons, loop]
+    split
+    · simp
+    · simp [ih]
+
+/-- **C09_value_blind.** Enforcing the solution count is natural in the solutions: renaming every solution by any
+function `f` (for instance to a falsy Python value — `0`, `""`, an empty container) changes neither how many are
+yielded nor the outcome. With `f := fun _ => ()` this says the behaviour is a function of the NUMBER of solutions
+alone. -/
+theorem C09_value_blind {α β} (f : α → β) (c : Option Constraint) (sols : List α) :
+    run c (sols.map f) = ((run c sols).1.map f, (run c sols).2) := loop_map f c 0 sols
+
+theorem C09_the_value_blind {α β} (f : α → β) (sols : List α) :
+    theRun (sols.map f) = (theRun sols).map fun
+      | .value x => .value (f x) | .noSolution => .noSolution | .multipleSolutions => .multipleSolutions := by
+  rw [C09_the, C09_the]
+  match sols with
+  | [] => rfl
+  | [x] => rfl
+  | x :: y :: r => rfl
+
+/-- a history of evaluations of one query object is the list of its evaluations taken alone (nothing is carried over:
+a failed evaluation, a partially consumed one and a finished one all leave the next evaluation unaffected) -/
+theorem C09_history_independent {α} (c : Option Constraint) (sols : List α) (ks : List (Option Nat)) :
+    history c sols ks = ks.map fun k => consume k (run c sols) := rfl
+
 end KrroodVerif.Quant
